@@ -315,6 +315,69 @@ def recon_checks(ctx):
                     xr = ref_pdhg(Ew, yyw, lam, Km, iters=6000)
                     if objw(x) - objw(xr) > 2e-3 * max(1.0, objw(xr)):
                         out.append((["C16", "C14"], "recon_objective", "%s(weights, lamda=%s): weighted objective %.6g, independent reference %.6g" % (name, lam, objw(x), objw(xr))))
+        # non-Cartesian data (coord given), with and without density-compensation weights, every recon app and solver.
+        # The encoding matrix is the library's own dense Sense operator WITHOUT weights (its agreement with the exact NDFT
+        # encoding is the operator check above); the documented objective adds the square-root weights by hand.
+        if trial < (2 if not ctx.thorough else 4):
+            npts = 28
+            coord = rs.uniform(-2, 2, (npts, 2))
+            En, _ = linop_build.dense(sp.mri.linop.Sense(mps, coord=coord), check_i=False)
+            yn = (En @ xt.ravel() + 0.05 * (rs.randn(nc * npts) + 1j * rs.randn(nc * npts))).reshape(nc, npts)
+            dcf = rs.uniform(0.25, 1.5, npts)
+            for wv in (None, dcf):
+                sw = np.ones(npts) if wv is None else np.sqrt(wv)
+                Ewn = (np.tile(sw, nc)[:, None]) * En
+                ywn = (sw[None] * yn).ravel()
+                for lam in (0.0, 0.05):
+                    xs = np.linalg.solve(Ewn.conj().T @ Ewn + lam * np.eye(16), Ewn.conj().T @ ywn)
+                    fs = 0.5 * np.linalg.norm(Ewn @ xs - ywn) ** 2 + lam / 2 * np.linalg.norm(xs) ** 2
+                    for solver, kw in ((None, dict(max_iter=80)), ("PrimalDualHybridGradient", dict(max_iter=5000))):
+                        n_eval += 1
+                        with warnings.catch_warnings():
+                            warnings.simplefilter("ignore")
+                            try:
+                                x = sp.mri.app.SenseRecon(yn.copy(), mps, lamda=lam, weights=None if wv is None else wv.copy(), coord=coord.copy(), solver=solver, show_pbar=False, **kw).run()
+                            except Exception as e:
+                                out.append((["C16"], "recon_exception", "non-Cartesian SenseRecon(solver=%s, lamda=%s, weights=%s) raised %r" % (solver, lam, wv is not None, e)))
+                                continue
+                        f = 0.5 * np.linalg.norm(Ewn @ x.ravel() - ywn) ** 2 + lam / 2 * np.linalg.norm(x) ** 2
+                        if f - fs > 2e-3 * max(1.0, fs):
+                            out.append((["C16"], "senserecon_noncartesian", "non-Cartesian SenseRecon(solver=%s, lamda=%s, weights=%s): objective %.6g vs optimum %.6g" % (solver, lam, wv is not None, f, fs)))
+                lam = 0.1
+                for name, Km, mk in (("TotalVariationRecon", Gm, lambda: sp.mri.app.TotalVariationRecon(yn.copy(), mps, lam, weights=None if wv is None else wv.copy(), coord=coord.copy(), show_pbar=False, max_iter=5000)),
+                                     ("L1WaveletRecon", Wm, lambda: sp.mri.app.L1WaveletRecon(yn.copy(), mps, lam, weights=None if wv is None else wv.copy(), coord=coord.copy(), wave_name="haar", show_pbar=False, max_iter=3000))):
+                    n_eval += 1
+                    with warnings.catch_warnings():
+                        warnings.simplefilter("ignore")
+                        try:
+                            x = mk().run()
+                        except Exception as e:
+                            out.append((["C16"], "recon_exception", "non-Cartesian %s(weights=%s) raised %r" % (name, wv is not None, e)))
+                            continue
+                    objn = lambda v: 0.5 * np.linalg.norm(Ewn @ v.ravel() - ywn) ** 2 + lam * np.abs(Km @ v.ravel()).sum()
+                    xr = ref_pdhg(Ewn, ywn, lam, Km, iters=6000)
+                    if objn(x) - objn(xr) > 2e-3 * max(1.0, objn(xr)):
+                        out.append((["C16", "C14"], "recon_objective", "non-Cartesian %s(lamda=%s, weights=%s): objective %.6g, independent reference %.6g" % (name, lam, wv is not None, objn(x), objn(xr))))
+        # the regularised recons through every solver LinearLeastSquares offers for them (Cartesian, lamda > 0)
+        if trial == 0:
+            lam = 0.1
+            for name, Km, solvers, mk in (
+                    ("TotalVariationRecon", Gm, ("PrimalDualHybridGradient", "ADMM"), lambda so, kw: sp.mri.app.TotalVariationRecon(y.copy(), mps, lam, solver=so, show_pbar=False, **kw)),
+                    ("L1WaveletRecon", Wm, ("GradientMethod", "PrimalDualHybridGradient", "ADMM"), lambda so, kw: sp.mri.app.L1WaveletRecon(y.copy(), mps, lam, wave_name="haar", solver=so, show_pbar=False, **kw))):
+                obj = lambda v: 0.5 * np.linalg.norm(E @ v.ravel() - y.ravel()) ** 2 + lam * np.abs(Km @ v.ravel()).sum()
+                xr = ref_pdhg(E, y.ravel(), lam, Km, iters=6000)
+                for so in solvers:
+                    n_eval += 1
+                    kw = dict(max_iter=400, max_cg_iter=10) if so == "ADMM" else dict(max_iter=5000)
+                    with warnings.catch_warnings():
+                        warnings.simplefilter("ignore")
+                        try:
+                            x = mk(so, kw).run()
+                        except Exception as e:
+                            out.append((["C16"], "recon_exception", "%s(solver=%s) raised %r" % (name, so, e)))
+                            continue
+                    if obj(x) - obj(xr) > 2e-3 * max(1.0, obj(xr)):
+                        out.append((["C16", "C14"], "recon_objective", "%s(solver=%s, lamda=%s): objective %.6g, independent reference %.6g" % (name, so, lam, obj(x), obj(xr))))
     return out, n_eval
 
 
